@@ -269,7 +269,9 @@ func c20ROIWorld() *c20World {
 		{Method: "POST", Path: "roi2/ptquery", Body: []byte("[[1,1,1],[150,165,173],[50,50,50]]"), Neighbour: true}}
 	w.Target = []c20Read{{Method: "GET", Path: "roi/roi"}, {Method: "GET", Path: "roi/info"}, {Method: "GET", Path: "roi/mask/0_1_2/16_8_8/0_0_0"},
 		{Method: "GET", Path: "roi/partition?batchsize=2"}}
-	w.Probe = c20Case{Method: "POST", Path: "probe/key/p", Body: []byte("p")}
+	// the valid later write goes to the target instance itself (it re-posts the world's own spans): a refused request
+	// that left the instance's write path locked or broken is seen by the next writer, not by readers
+	w.Probe = c20Case{Method: "POST", Path: "roi/roi", Body: []byte("[[0,0,0,3],[1,0,0,0],[43,41,37,38]]")}
 	return w
 }
 
